@@ -175,8 +175,6 @@ def check(case):
         iq = list(qf.input_qubits)
         if iq != list(range(n)):
             fail("input_qubits", f"input_qubits = {iq}, expected 0..{n - 1}")
-        if [qc.qubit_map.get(b) for b in names] != list(range(n)):
-            fail("input_qubits_map", f"argument bits are mapped to {[qc.qubit_map.get(b) for b in names]}")
     except Exception as e:
         fail("input_qubits_exception", f"{type(e).__name__}: {e}")
     try:
